@@ -43,7 +43,19 @@ CLAIMED = {
              'longer paths and slices recorded from real Path objects are validated by TLC.',
         design='4/C18',
         technique='TLA+ sequence/evaluation laws + TLC enumeration, replay on real T/Path objects, TLC validation of recorded slices'),
+    'C08': dict(
+        text='GlomFrames models one glom call as a machine over an explicit frame table (enter / setmode / argmode / bind / chain / '
+             'error actions transcribed from _glom, chain_child and the specifiers); TLC checks on every wrapper/composite tree up to '
+             'the bound, in every intermediate frame table, that the mechanism satisfies the lexical-mode law, and that the historic '
+             'mechanism (mutant) violates it.  Every tree is replayed with real specs whose probes report how a string, tuple, list and '
+             'dict are interpreted; the GLOM_VERIF hook events must equal the model actions (else DRIFT).  GlomShape states the Fill / '
+             'argument-position rebuild laws (same type and shape, fresh containers, cyclic lists/dicts preserved), TLC checks them on '
+             'every 2-cell container graph and each graph is replayed through Fill, Coalesce default, Call args, S binding and Assign.  '
+             'Random deeper trees recorded from glom are validated by TLC.',
+        design='4/C08',
+        technique='TLA+ frame machine + lexical law (TLC), spec mutant, replay with mode probes, hook-trace validation by TLC'),
 }
 
 PENDING_REASON = 'check not built yet (planned: see DESIGN.md section 4); not claimed until both binding directions exist'
+HOOK_COMMITS = ['2d093ff']
 ALL = ['C%02d' % i for i in range(1, 21)]
